@@ -172,22 +172,26 @@ def make_file(rng, nsfac=None, nfvar=None, rich=True):
                 plain('WGHT 0.05 0.25', 'wght')]
     lines += head
     # atoms first (restraints name them)
-    natoms = rng.randint(3, 7) if rich else 4
+    natoms = rng.randint(3, 7) if rich else 5
     used = set()
     atoms = []
     for i in range(natoms):
-        s = rng.randrange(nel) + 1
-        name = gen.atom_name(rng, els[s - 1], used)
+        sf = rng.randrange(nel) + 1
+        name = gen.atom_name(rng, els[sf - 1], used)
         aniso = (i % 2 == 1) if not rich else rng.random() < 0.5
         u = tuple(round(0.02 + 0.001 * (7 * i + j), 5) for j in range(3)) + tuple(round(0.001 * (i + j + 1), 5) * (-1) ** j for j in range(3)) \
             if aniso else (round(0.03 + 0.001 * i, 5),)
         xyz = (round(0.05 + 0.0731 * i, 6), round(0.9 - 0.0517 * i, 6), round(0.25 + 0.0313 * i, 6))
-        atoms.append(gen.AtomSpec(name, s, xyz, rng.choice([11.0, 11.0, 10.5, 21.0, -21.0]), u))
+        atoms.append(gen.AtomSpec(name, sf, xyz, rng.choice([11.0, 11.0, 10.5, 21.0, -21.0]), u))
     if rich and natoms >= 2:
         n1, n2 = atoms[0].name, atoms[1].name
         for x in rng.sample([f'DFIX 1.5 0.02 {n1} {n2}', f'SADI {n1} {n2} {n2} {atoms[-1].name}', f'SIMU {n1} > {atoms[-1].name}',
                              f'DELU 0.01 0.01 {n1} {n2}'], rng.randint(0, 3)):
             lines.insert(rng.randint(len(lines) - len(head), len(lines)), plain(x))
+    if rich and rng.random() < 0.4:          # instruction lines with identical text
+        lines.insert(rng.randint(len(lines) - len(head), len(lines)), plain('REM first remark of the file'))
+    elif not rich:
+        lines.append(plain('REM first remark'))
     # FVAR lines
     nfv = rng.randint(nfvar, 7)
     fv = [round(rng.uniform(0.05, 0.95), 5) for _ in range(nfv)]
@@ -197,20 +201,48 @@ def make_file(rng, nsfac=None, nfvar=None, rich=True):
         lines.append(L('fvar', 'FVAR ' + ' '.join(gen.fmt(v, 5) for v in p), ['FVAR'] + [gen.fmt(v, 5) for v in p], 'fvar' if i == 0 else 'fvar+'))
         if i < len(parts) - 1 and rng.random() < 0.2:
             lines.append(plain('REM between the FVAR lines'))
-    # atom section with PART / RESI / AFIX context
-    in_part = in_resi = False
-    for i, a in enumerate(atoms):
-        if rich and rng.random() < 0.3:
-            in_part = not in_part
-            lines.append(plain(f'PART {rng.choice([1, 2]) if in_part else 0}'))
-        if rich and rng.random() < 0.2:
-            in_resi = not in_resi
-            lines.append(plain(f'RESI {rng.randint(1, 9)} CCF' if in_resi else 'RESI 0'))
-        lines.append(atom_line(a, 'atom'))
-    if in_part:
-        lines.append(plain('PART 0'))
-    if in_resi:
-        lines.append(plain('RESI 0'))
+    # atom section: blocks of plain atoms, disorder PARTs, residues and AFIX groups. A block may repeat the
+    # lines of its first half word by word (the same atom in the other PART / a duplicated residue): atoms whose
+    # text is identical are legitimate input, the later copy is marked `twin`.
+    def twin_of(l):
+        t = dict(l, phys=list(l['phys']), t=list(l['t']))
+        t['twin'] = True
+        return t
+
+    def hydrogen(k):
+        h = gen.AtomSpec(f'H{k + 1}', 1, (round(0.4 + 0.031 * k, 6), round(0.6 - 0.017 * k, 6), round(0.1 + 0.023 * k, 6)), 11.0, (-1.2,))
+        return atom_line(h, 'atom')
+
+    al = [atom_line(x, 'atom') for x in atoms]
+    if rich:
+        i = 0
+        while i < len(al):
+            kind = rng.choice(['plain', 'plain', 'part', 'resi', 'afix'])
+            n = min(rng.randint(1, 2), len(al) - i)
+            grp = al[i:i + n]
+            i += n
+            if kind == 'plain':
+                lines += grp
+            elif kind == 'part':
+                second = [twin_of(x) for x in grp] if rng.random() < 0.5 else None
+                lines += [plain('PART 1')] + grp
+                if second or rng.random() < 0.5:
+                    lines += [plain('PART 2')] + (second or [])
+                lines.append(plain(rng.choice(['PART 0', 'PART 0', 'PART -1'])) if not second else plain('PART 0'))
+                if lines[-1]['t'][1] == '-1':
+                    lines.append(plain('PART 0'))
+            elif kind == 'resi':
+                r = rng.randint(1, 8)
+                lines += [plain(f'RESI {r} CCF')] + grp
+                if rng.random() < 0.5:
+                    lines += [plain(f'RESI {r + 1} CCF')] + [twin_of(x) for x in grp]
+                lines.append(plain('RESI 0'))
+            else:
+                lines += grp + [plain(rng.choice(['AFIX 43', 'AFIX 137'])), hydrogen(i), plain('AFIX 0')]
+    else:
+        lines += [al[0], al[1], plain('PART 1'), al[2], plain('PART 2'), twin_of(al[2]), plain('PART 0'),
+                  plain('RESI 1 CCF'), al[3], plain('RESI 2 CCF'), twin_of(al[3]), plain('RESI 0'),
+                  al[4], plain('AFIX 43'), hydrogen(0), plain('AFIX 0')]
     lines.append(plain('HKLF 4', 'hklf'))
     lines.append(plain('END', 'end'))
     if not rich or rng.random() < 0.8:
@@ -238,17 +270,22 @@ def alphabet(case, small=False):
         dict(op='insert_anis', atoms='C1', residue='CCF'), dict(op='frag_fend'),
         dict(op='del_atom', pos='first', via='delitem'), dict(op='del_atom', pos='middle', via='delete'),
         dict(op='del_atom', pos='last', via='delitem'), dict(op='del_qpeak'),
+        dict(op='del_atom', pos='twin', via='delete'), dict(op='del_atom', pos='twin', via='delitem'),
+        dict(op='rename', pos='twin', name='Xe5'), dict(op='element', pos='twin', el=absent), dict(op='to_iso', pos='twin'),
+        dict(op='add_line_atom', pos='first'), dict(op='add_line_atom', pos='last'), dict(op='add_line_atom', pos='twin'),
+        dict(op='add_line_copy', pos='twin'), dict(op='add_line_copy', pos='middle'), dict(op='replace_line', which=1),
         dict(op='element', pos='first', el=present), dict(op='element', pos='middle', el=absent),
         dict(op='rename', pos='first', name='Zr7'), dict(op='rename', pos='last', name='N88'),
         dict(op='to_iso', pos='first'), dict(op='to_iso', pos='middle'),
         dict(op='plan_set', text='PLAN 33 1.25'), dict(op='plan_set', text='PLAN -17'),
         dict(op='cycles', n=7, via='number'), dict(op='cycles', n=3, via='set_refine_cycles'),
         dict(op='wght', attr='a', val=0.0733), dict(op='wght', attr='b', val=1.625),
-        dict(op='update_weight'), dict(op='acta_remove'), dict(op='acta_restore'), dict(op='replace_line'),
+        dict(op='update_weight'), dict(op='acta_remove'), dict(op='acta_restore'), dict(op='replace_line', which=0),
     ]
     if not small:
         return full
     keep = {('add_line0',), ('add_line_unit',), ('insert_anis', ''), ('del_atom', 'first'), ('del_atom', 'last'), ('element', 'middle'),
+            ('del_atom', 'twin'), ('add_line_copy', 'twin'),
             ('to_iso', 'middle'), ('update_weight',), ('acta_remove',), ('acta_restore',)}
     if small != 'tiny':
         keep |= {('rename', 'first'), ('plan_set',), ('cycles', 'number'), ('add_line_fvar',)}
@@ -263,7 +300,7 @@ def alphabet(case, small=False):
 def rand_op(rng, case):
     o = dict(rng.choice(alphabet(case)))
     if 'pos' in o:
-        o['pos'] = rng.choice(['first', 'middle', 'last'])
+        o['pos'] = rng.choice(['first', 'middle', 'last', 'twin', 'twin'])
     if o['op'] == 'element':
         o['el'] = rng.choice(case['els'] + case['absent'])
     if o['op'] == 'rename':
@@ -285,6 +322,10 @@ class Book:
         self.toks = {}
         self.role = {}
         self.atoms = []      # keys of atoms before END, in file order, alive
+        self.twins = []      # keys of atoms whose line repeats, word by word, the line of an earlier atom
+        self.rems = []       # keys of the REM instructions (shx.rem), in file order
+        self.replaced = set()
+        self.twin_target = False
         self.qpeaks = []
         sfac0 = fvar0 = None
         for k, l in enumerate(case['lines']):
@@ -308,12 +349,14 @@ class Book:
             self.toks[k] = list(l['t'])
             if r == 'atom':
                 self.atoms.append(k)
+                if l.get('twin'):
+                    self.twins.append(k)
             elif r == 'qpeak':
                 self.qpeaks.append(k)
             elif r not in ('x', 'rem0') and r not in self.role:
                 self.role[r] = k
-            if l['t'][0].upper() == 'REM' and 'rem0' not in self.role:
-                self.role['rem0'] = k          # shx.rem[0]: the first REM line of the file
+            if l['t'][0].upper() == 'REM':
+                self.rems.append(k)            # shx.rem: the REM lines of the file, in order
         self.next_key = len(case['lines'])
         self.acta_saved = None
         self.n = 0
@@ -328,6 +371,12 @@ class Book:
 
     def pick(self, pos):
         if not self.atoms:
+            return None
+        if pos == 'twin':            # the first later copy that is still in the file
+            for k in self.twins:
+                if k in self.atoms:
+                    self.twin_target = True
+                    return self.atoms.index(k)
             return None
         return {'first': 0, 'middle': len(self.atoms) // 2, 'last': len(self.atoms) - 1}[pos]
 
@@ -354,6 +403,17 @@ class Book:
                 return None
             p = sum(1 for st in self.starts if st <= o['i'])
             return [dict(k='addLine', i=o['i'], t=text.split())], [dict(k='insertAt', p=p, t=text.split())], lambda s, r: s.add_line(o['i'], text)
+        if kind in ('add_line_atom', 'add_line_copy'):
+            idx = self.pick(o['pos'])
+            if idx is None:
+                return None
+            key = self.atoms[idx]
+            if kind == 'add_line_atom':      # add_line(atom.index, text): the new line follows this very atom
+                return (*self.after(key, text.split()), lambda s, r, idx=idx: s.add_line(s.atoms.all_atoms[idx].index, text))
+            # a plain text line that reads exactly like the atom, in front of it (after list entry 0)
+            t = list(self.toks[key])
+            self.twin_target = True
+            return [dict(k='addLine', i=0, t=t)], [dict(k='insertAt', p=1, t=t)], lambda s, r, idx=idx: s.add_line(0, str(s.atoms.all_atoms[idx]))
         if kind == 'add_line_sfac':
             return (*self.after(R['sfac'], text.split()), lambda s, r: s.add_line(s.index_of(s.sfac_table), text))
         if kind == 'add_line_unit':
@@ -455,12 +515,16 @@ class Book:
             m = dict(k='insertObjAfter', u=R['unit'], o=key, t=self.acta_saved)
             return [m], [dict(m)], lambda s, r: r.restore_acta_card()
         if kind == 'replace_line':
-            if 'rem0' not in R:
+            w = o.get('which', 0)
+            if w >= len(self.rems) or w in self.replaced:
                 return None
-            key = R.pop('rem0')
+            self.replaced.add(w)
+            key = self.rems[w]
+            if any(self.toks[key] == self.toks[k2] for k2 in self.rems[:w]):
+                self.twin_target = True
             new = f'REM c04 replaced {self.n}'
             m = dict(k='replace', o=key, t=new.split())
-            return [m], [dict(m)], lambda s, r: s.replace_line(s.rem[0], new)
+            return [m], [dict(m)], lambda s, r: s.replace_line(s.rem[w], new)
         raise ValueError(f'unknown edit {kind}')
 
 
@@ -478,6 +542,11 @@ def tmpdir():
 
 
 def run_impl(case, calls):
+    calls = [c for c in calls if not isinstance(c, bool)]
+    return _run_impl(case, calls)
+
+
+def _run_impl(case, calls):
     """the real code: parse, write, then edit + write after every edit. -> dict(init=lines, steps=[lines...], error=...)"""
     from shelxfile import Shelxfile
     from shelxfile.refine.refine import ShelxlRefine
@@ -518,6 +587,7 @@ def plan(case):
             steps.append(dict(ops=m[0], aops=m[1]))
             calls.append(m[2])
     req = dict(p='C04', op='hist', src=[dict(k=l['k'], n=len(l['phys']), t=l['t']) for l in case['lines']], steps=steps)
+    calls.append(b.twin_target)       # last element: did the history address a line that has a textual twin?
     return req, calls
 
 
@@ -590,7 +660,7 @@ def shrink(ctx, case, fail):
 def signature(case, fail):
     if fail['step'] < 0:
         return f'C04|init|{fail["what"]}'
-    kinds = '+'.join(o['op'] for o in case['hist'][:fail['step'] + 1])
+    kinds = '+'.join(o['op'] + ('@twin' if o.get('pos') == 'twin' else '') for o in case['hist'][:fail['step'] + 1])
     return f'C04|{kinds}|{fail["what"]}'
 
 
@@ -603,10 +673,13 @@ def evaluate(ctx, cases, stream=None):
     for case, (req, calls), ans in zip(cases, plans, answers):
         impl = run_impl(case, calls)
         fail, info = judge(case, impl, ans)
+        twin = bool(calls and calls[-1] is True)
+        idx_sens = info['nontrivial']
+        info['nontrivial'] = idx_sens or twin
         nsf = sum(1 for l in case['lines'] if l['k'] == 'sfac')
         nfv = sum(1 for l in case['lines'] if l['k'] == 'fvar')
         tags = [f'sfac-lines={nsf}', f'fvar-lines={nfv}', f'depth={min(len(case["hist"]), 5)}{"+" if len(case["hist"]) > 5 else ""}'] + \
-               sorted({'op=' + o['op'] for o in case['hist']}) + (['index-sensitive'] if info['nontrivial'] else [])
+               sorted({'op=' + o['op'] for o in case['hist']}) + (['index-sensitive'] if idx_sens else []) + (['twin-target'] if twin else [])
         ctx.count([file_text(case), case['hist']], nontrivial=info['nontrivial'], tags=tags,
                   sample=dict(sfac_lines=nsf, fvar_lines=nfv, history=[o['op'] for o in case['hist']][:8],
                               written_after_last_edit=(impl['steps'][-1][:8] if impl['steps'] else impl['init'][:8] if impl['init'] else None)) if info['nontrivial'] else None)
@@ -641,13 +714,12 @@ def evaluate(ctx, cases, stream=None):
 
 def run(ctx):
     ctx.rule = ('by-construction files with 1-3 SFAC lines, 1-3 FVAR lines (<= 7 free variables), 0-2 SYMM, ACTA/PLAN/L.S./WGHT, restraints, '
-                '3-7 iso/aniso atoms in PART/RESI context, WGHT + Q-peaks after END; histories over 29 edit instances (15 kinds) + add_line at every list index of the unedited file: '
-                'bounded-exhaustive to depth 2, 3 on a 15-instance alphabet (quick) / 3 on all, 4 on a 10-instance alphabet (thorough) and random walks to depth 50, file written '
+                '3-7 iso/aniso atoms in PART/RESI/AFIX blocks incl. word-by-word identical atom lines (same atom in the other PART / duplicated residue) and identical REM lines, WGHT + Q-peaks after END; histories over 40 edit instances (17 kinds) + add_line at every list index of the unedited file: '
+                'bounded-exhaustive to depth 2, 3 on a 13-instance alphabet (quick) / 3 on all, 4 on a 10-instance alphabet (thorough) and random walks to depth 50, file written '
                 'and lexed after every edit; distinct by (file text, history); non-trivial = the scheme with absolute delete_on_write '
                 'indices would write something else than the specification somewhere in the history (insertion/deletion in front '
-                'of an absorbed SFAC/FVAR line)')
-    ctx.assumptions = ['atoms have pairwise different text (Atom.__eq__ is text equality: property C08)',
-                       'at most 7 free variables (one written FVAR line)', 'no edit addresses a line an earlier edit removed',
+                'of an absorbed SFAC/FVAR line), or the history addresses a line of which a textually identical copy stands earlier in the file')
+    ctx.assumptions = ['at most 7 free variables (one written FVAR line)', 'no edit addresses a line an earlier edit removed',
                        'SFAC lines list element symbols only, no element twice']
     rng = ctx.rng
     thorough = ctx.tier == 'thorough' or ctx.escalated
@@ -656,11 +728,19 @@ def run(ctx):
     shapes = [(2, 2), (3, 3), (1, 1)] if not thorough else [(2, 2), (3, 3), (1, 1), (1, 3), (3, 1)]
     for i, (ns, nf) in enumerate(shapes):
         f = make_file(rng, ns, nf, rich=False)
-        enum = [(alphabet(f), 1), (alphabet(f), 2)]
-        if i == 0 or (thorough and i < 3):
-            enum.append((alphabet(f, small=True), 3))
+        full, small = alphabet(f), alphabet(f, small=True)
+        enum = [(full, 1), (full if (i == 0 or thorough) else small, 2)]
+        if thorough and i < 3:
+            enum.append((small, 3))
+        elif i == 0:
+            seen, mid = set(), []
+            for o in alphabet(f, small='tiny') + [x for x in small if x['op'] in ('add_line_copy', 'add_line_fvar') or x.get('pos') == 'twin']:
+                if (o['op'], o.get('pos')) not in seen:
+                    seen.add((o['op'], o.get('pos')))
+                    mid.append(o)
+            enum.append((mid, 3))
         if thorough and i == 0:
-            enum.append((alphabet(f), 3))
+            enum.append((full, 3))
             enum.append((alphabet(f, small='tiny'), 4))
         for al, d in enum:
             for h in itertools.product(al, repeat=d):
